@@ -345,5 +345,614 @@ Qed.
 Lemma mapM_map_ok {I A B} (h : I -> A) (f : A -> result B) (g : I -> B) l :
   (forall k, In k l -> f (h k) = Ok (g k)) -> mapM f (map h l) = Ok (map g l).
 Proof.
-  intros H. rewrite (mapM_ok f (fun a => match f a with Ok b => b | Err _ => g (hd_error l |> fun _ => match l with k :: _ => k | [] => match l with k :: _ => k | [] => _ end end) end)) || idtac.
-Abort.
+  induction l as [|a l IH]; intros H; [reflexivity|].
+  cbn [mapM map]. rewrite (H a (or_introl eq_refl)). cbn [bind].
+  rewrite IH by (intros b Hb; apply H; right; exact Hb). reflexivity.
+Qed.
+
+Lemma of_nats_app a b : of_nats (a ++ b) = of_nats a ++ of_nats b.
+Proof. apply map_app. Qed.
+
+Lemma L_eq n : 1 <= n -> zrange 1 (Z.of_nat n) ++ [0%Z] = of_nats (gen_L n).
+Proof.
+  intros H. unfold gen_L. rewrite of_nats_app. change 1%Z with (Z.of_nat 1). rewrite zrange_nat. reflexivity.
+Qed.
+
+Lemma R_eq n : 1 <= n -> [(Z.of_nat n - 1)%Z] ++ zrange 0 (Z.of_nat n - 1) = of_nats (gen_R n).
+Proof.
+  intros H. unfold gen_R. rewrite of_nats_app.
+  replace (Z.of_nat n - 1)%Z with (Z.of_nat (n - 1)) by lia. rewrite zrange0_nat. reflexivity.
+Qed.
+
+Lemma revp_eq n k : k <= n ->
+  zrange_down (Z.of_nat k - 1) (-1) ++ zrange (Z.of_nat k) (Z.of_nat n) = of_nats (gen_rev_prefix n k).
+Proof.
+  intros H. unfold gen_rev_prefix. rewrite of_nats_app, zrange_nat.
+  change (-1)%Z with (Z.of_nat 0 - 1)%Z. rewrite zrange_down_nat by lia. now rewrite Nat.sub_0_r.
+Qed.
+
+Ltac zguard :=
+  repeat match goal with
+  | |- context [Z.leb ?a ?b] => destruct (Z.leb_spec a b); try lia
+  | |- context [Z.ltb ?a ?b] => destruct (Z.ltb_spec a b); try lia
+  | |- context [Z.eqb ?a ?b] => destruct (Z.eqb_spec a b); try lia
+  end; cbn [negb andb orb].
+
+(* what every theorem below establishes first: the call succeeds and returns these generators *)
+Definition returns (r : result pdef) (n : nat) (gens : list (list nat)) : Prop :=
+  exists d, r = Ok d /\ p_gens d = gens /\ p_central d = of_nats (seq 0 n) /\ length (p_names d) = length gens.
+
+Lemma returns_create gens names name n :
+  gens <> [] -> 0 < n -> Forall (PermN n) gens ->
+  (forall l, names = Some l -> length l = length gens) ->
+  returns (create (map of_nats gens) names (zrange 0 (Z.of_nat n)) name) n gens.
+Proof.
+  intros H1 H2 H3 H4. eexists. split; [apply create_ok; assumption|]. cbn. repeat split.
+  destruct names as [l|]; cbn [names_of]; [apply H4; reflexivity|].
+  unfold default_names. now rewrite !map_length.
+Qed.
+
+(* ---------------------------------------------------------------------------------------------- *)
+(** * lrx, lx, top_spin *)
+Theorem lrx_returns n k : 3 <= n -> 1 <= k < n ->
+  returns (lrx (Z.of_nat n) (Z.of_nat k)) n [gen_L n; gen_R n; transp n 0 k].
+Proof.
+  intros Hn Hk. unfold lrx. destruct (Z.leb_spec 3 (Z.of_nat n)); [|lia]. cbn [negb].
+  pose proof (ztransposition_nat n 0 k ltac:(lia) ltac:(lia) ltac:(lia)) as E. cbn [Z.of_nat] in E.
+  rewrite E. cbn [bind]. rewrite L_eq, R_eq by lia.
+  change [of_nats (gen_L n); of_nats (gen_R n); of_nats (transp n 0 k)]
+    with (map of_nats [gen_L n; gen_R n; transp n 0 k]).
+  apply returns_create; [discriminate|lia| |intros l [= <-]; reflexivity].
+  repeat (apply Forall_cons || apply Forall_nil); [apply gen_L_PermN|apply gen_R_PermN|apply transp_PermN]; lia.
+Qed.
+
+Theorem lx_returns n : 3 <= n -> returns (lx (Z.of_nat n)) n [gen_L n; transp n 0 1].
+Proof.
+  intros Hn. unfold lx. zguard.
+  pose proof (ztransposition_nat n 0 1 ltac:(lia) ltac:(lia) ltac:(lia)) as E. cbn [Z.of_nat Pos.of_succ_nat] in E.
+  rewrite E. cbn [bind]. rewrite L_eq by lia.
+  change [of_nats (gen_L n); of_nats (transp n 0 1)] with (map of_nats [gen_L n; transp n 0 1]).
+  apply returns_create; [discriminate|lia| |intros l [= <-]; reflexivity].
+  repeat (apply Forall_cons || apply Forall_nil); [apply gen_L_PermN|apply transp_PermN]; lia.
+Qed.
+
+Theorem top_spin_returns n k : 2 <= k <= n ->
+  returns (top_spin (Z.of_nat n) (Z.of_nat k)) n [gen_L n; gen_R n; gen_rev_prefix n k].
+Proof.
+  intros Hk. unfold top_spin. zguard.
+  rewrite L_eq, R_eq, revp_eq by lia.
+  change [of_nats (gen_L n); of_nats (gen_R n); of_nats (gen_rev_prefix n k)]
+    with (map of_nats [gen_L n; gen_R n; gen_rev_prefix n k]).
+  apply returns_create; [discriminate|lia| |intros l [=]].
+  repeat (apply Forall_cons || apply Forall_nil); [apply gen_L_PermN|apply gen_R_PermN|apply gen_rev_prefix_PermN]; lia.
+Qed.
+
+(* ---------------------------------------------------------------------------------------------- *)
+(** * pancake *)
+Lemma map_of_nats_ext (f : Z -> list Z) (g : nat -> list nat) l :
+  (forall k, In k l -> f (Z.of_nat k) = of_nats (g k)) -> map f (of_nats l) = map of_nats (map g l).
+Proof.
+  intros H. unfold of_nats at 1. rewrite !map_map. apply map_ext_in. exact H.
+Qed.
+
+Theorem pancake_returns n : 2 <= n ->
+  returns (pancake (Z.of_nat n)) n (map (gen_rev_prefix n) (seq 2 (n - 1))).
+Proof.
+  intros Hn. unfold pancake. zguard.
+  replace (zrange 2 (Z.of_nat n + 1)) with (of_nats (seq 2 (n - 1))).
+  2:{ change 2%Z with (Z.of_nat 2). replace (Z.of_nat n + 1)%Z with (Z.of_nat (n + 1)) by lia.
+      rewrite zrange_nat. do 2 f_equal. lia. }
+  rewrite (map_of_nats_ext _ (gen_rev_prefix n)).
+  2:{ intros k Hk. apply in_seq in Hk. apply revp_eq. lia. }
+  apply returns_create.
+  - destruct n as [|[|n']]; try lia. discriminate.
+  - lia.
+  - apply Forall_forall. intros p Hp. apply in_map_iff in Hp as (k & <- & Hk). apply in_seq in Hk.
+    apply gen_rev_prefix_PermN. lia.
+  - intros l [= <-]. unfold of_nats. now rewrite !map_length.
+Qed.
+
+(* ---------------------------------------------------------------------------------------------- *)
+(** * coxeter, cyclic_coxeter, stars *)
+Lemma coxeter_generators_nat n : 1 <= n ->
+  coxeter_generators (Z.of_nat n) = Ok (map of_nats (map (fun k => transp n k (k + 1)) (seq 0 (n - 1)))).
+Proof.
+  intros Hn. unfold coxeter_generators.
+  replace (Z.of_nat n - 1)%Z with (Z.of_nat (n - 1)) by lia. rewrite zrange0_nat. unfold of_nats at 1.
+  rewrite (mapM_map_ok Z.of_nat _ (fun k => of_nats (transp n k (k + 1)))).
+  - now rewrite map_map.
+  - intros k Hk. apply in_seq in Hk. replace (Z.of_nat k + 1)%Z with (Z.of_nat (k + 1)) by lia.
+    apply ztransposition_nat; lia.
+Qed.
+
+Theorem coxeter_returns n : 2 <= n ->
+  returns (coxeter (Z.of_nat n)) n (map (fun k => transp n k (k + 1)) (seq 0 (n - 1))).
+Proof.
+  intros Hn. unfold coxeter. zguard. rewrite coxeter_generators_nat by lia. cbn [bind].
+  apply returns_create.
+  - destruct n as [|[|n']]; try lia. discriminate.
+  - lia.
+  - apply Forall_forall. intros p Hp. apply in_map_iff in Hp as (k & <- & Hk). apply in_seq in Hk.
+    apply transp_PermN; lia.
+  - intros l [= <-]. rewrite !map_length. unfold zrange. rewrite map_length, !seq_length. lia.
+Qed.
+
+Theorem cyclic_coxeter_returns n : 2 <= n ->
+  returns (cyclic_coxeter (Z.of_nat n)) n
+          (map (fun k => transp n k (k + 1)) (seq 0 (n - 1)) ++ [transp n 0 (n - 1)]).
+Proof.
+  intros Hn. unfold cyclic_coxeter. zguard. rewrite coxeter_generators_nat by lia. cbn [bind].
+  pose proof (ztransposition_nat n 0 (n - 1) ltac:(lia) ltac:(lia) ltac:(lia)) as E. cbn [Z.of_nat] in E.
+  replace (Z.of_nat n - 1)%Z with (Z.of_nat (n - 1)) by lia. rewrite E. cbn [bind].
+  change [of_nats (transp n 0 (n - 1))] with (map of_nats [transp n 0 (n - 1)]). rewrite <- map_app.
+  apply returns_create.
+  - destruct n as [|[|n']]; try lia. discriminate.
+  - lia.
+  - apply Forall_app. split.
+    + apply Forall_forall. intros p Hp. apply in_map_iff in Hp as (k & <- & Hk). apply in_seq in Hk.
+      apply transp_PermN; lia.
+    + repeat (apply Forall_cons || apply Forall_nil). apply transp_PermN; lia.
+  - intros l [= <-]. rewrite !app_length, !map_length. unfold zrange. rewrite map_length, !seq_length. cbn. lia.
+Qed.
+
+Theorem stars_returns n : 3 <= n ->
+  returns (stars (Z.of_nat n)) n (map (fun i => transp n 0 i) (seq 1 (n - 1))).
+Proof.
+  intros Hn. unfold stars. zguard.
+  change 1%Z with (Z.of_nat 1). rewrite zrange_nat. unfold of_nats at 1.
+  rewrite (mapM_map_ok Z.of_nat _ (fun i => of_nats (transp n 0 i))).
+  2:{ intros i Hi. apply in_seq in Hi.
+      pose proof (ztransposition_nat n 0 i ltac:(lia) ltac:(lia) ltac:(lia)) as E. cbn [Z.of_nat] in E. exact E. }
+  cbn [bind]. rewrite <- map_map.
+  apply returns_create.
+  - destruct n as [|[|n']]; try lia. discriminate.
+  - lia.
+  - apply Forall_forall. intros p Hp. apply in_map_iff in Hp as (k & <- & Hk). apply in_seq in Hk.
+    apply transp_PermN; lia.
+  - intros l [= <-]. unfold of_nats. now rewrite !map_length.
+Qed.
+
+(* ---------------------------------------------------------------------------------------------- *)
+(** * families indexed by the pairs i < j < n: all_transpositions, full_reversals, down_cycles *)
+Definition pairs (n : nat) : list (nat * nat) :=
+  flat_map (fun i => map (fun j => (i, j)) (seq (i + 1) (n - (i + 1)))) (seq 0 n).
+Definition zpair (ij : nat * nat) : Z * Z := (Z.of_nat (fst ij), Z.of_nat (snd ij)).
+
+Lemma in_pairs n i j : In (i, j) (pairs n) <-> i < j < n.
+Proof.
+  unfold pairs. rewrite in_flat_map. split.
+  - intros (i' & Hi' & H). apply in_map_iff in H as (j' & [= <- <-] & Hj'). apply in_seq in Hi', Hj'. lia.
+  - intros H. exists i. split; [apply in_seq; lia|]. apply in_map. apply in_seq. lia.
+Qed.
+
+Lemma pairs_length n : 2 * length (pairs n) = n * (n - 1).
+Proof.
+  unfold pairs.
+  assert (forall m a, a + m = n ->
+    2 * length (flat_map (fun i => map (fun j => (i, j)) (seq (i + 1) (n - (i + 1)))) (seq a m)) = m * (m - 1)) as H.
+  { induction m as [|m IH]; intros a E; [reflexivity|].
+    cbn [seq flat_map]. rewrite app_length, map_length, seq_length.
+    specialize (IH (S a) ltac:(lia)). nia. }
+  apply (H n 0). lia.
+Qed.
+
+Lemma zpairs_nat n :
+  flat_map (fun i => map (fun j => (i, j)) (zrange (i + 1) (Z.of_nat n))) (zrange 0 (Z.of_nat n))
+  = map zpair (pairs n).
+Proof.
+  rewrite zrange0_nat. unfold pairs, of_nats. rewrite !flat_map_concat_map, concat_map, !map_map.
+  f_equal. apply map_ext. intros i. replace (Z.of_nat i + 1)%Z with (Z.of_nat (i + 1)) by lia.
+  rewrite zrange_nat. unfold of_nats. rewrite !map_map. reflexivity.
+Qed.
+
+Theorem all_transpositions_returns n : 2 <= n ->
+  returns (all_transpositions (Z.of_nat n)) n (map (fun ij => transp n (fst ij) (snd ij)) (pairs n)).
+Proof.
+  intros Hn. unfold all_transpositions. zguard. rewrite zpairs_nat.
+  rewrite (mapM_map_ok zpair _ (fun ij => of_nats (transp n (fst ij) (snd ij)))).
+  2:{ intros [i j] Hij. apply in_pairs in Hij. cbn [zpair fst snd]. apply ztransposition_nat; lia. }
+  cbn [bind]. rewrite <- map_map.
+  apply returns_create.
+  - assert (In (0, 1) (pairs n)) as Hij by (apply in_pairs; lia).
+    destruct (pairs n); [destruct Hij|discriminate].
+  - lia.
+  - apply Forall_forall. intros p Hp. apply in_map_iff in Hp as ([i j] & <- & Hij). apply in_pairs in Hij.
+    apply transp_PermN; cbn; lia.
+  - intros l [= <-]. now rewrite !map_length.
+Qed.
+
+Lemma revseg_eq n i j : i <= j -> j < n ->
+  zrange 0 (Z.of_nat i) ++ zrange_down (Z.of_nat j) (Z.of_nat i - 1) ++ zrange (Z.of_nat j + 1) (Z.of_nat n)
+  = of_nats (gen_rev_segment n i j).
+Proof.
+  intros H1 H2. unfold gen_rev_segment. rewrite !of_nats_app, zrange0_nat.
+  replace (Z.of_nat j) with (Z.of_nat (j + 1) - 1)%Z at 1 by lia. rewrite zrange_down_nat by lia.
+  replace (Z.of_nat j + 1)%Z with (Z.of_nat (j + 1)) by lia. rewrite zrange_nat. reflexivity.
+Qed.
+
+Theorem full_reversals_returns n : 2 <= n ->
+  returns (full_reversals (Z.of_nat n)) n (map (fun ij => gen_rev_segment n (fst ij) (snd ij)) (pairs n)).
+Proof.
+  intros Hn. unfold full_reversals. zguard. rewrite zpairs_nat.
+  rewrite map_map.
+  rewrite (map_ext_in _ (fun ij => of_nats (gen_rev_segment n (fst ij) (snd ij)))).
+  2:{ intros [i j] Hij. apply in_pairs in Hij. cbn [zpair fst snd]. apply revseg_eq; lia. }
+  rewrite <- map_map.
+  apply returns_create.
+  - assert (In (0, 1) (pairs n)) as Hij by (apply in_pairs; lia).
+    destruct (pairs n); [destruct Hij|discriminate].
+  - lia.
+  - apply Forall_forall. intros p Hp. apply in_map_iff in Hp as ([i j] & <- & Hij). apply in_pairs in Hij.
+    apply gen_rev_segment_PermN; cbn; lia.
+  - intros l [= <-]. now rewrite !map_length.
+Qed.
+
+(* ---------------------------------------------------------------------------------------------- *)
+(** * cycles of consecutive points: prefix_cycles, down_cycles, consecutive_k_cycles *)
+Lemma gen_cycle_length n i j : i <= j -> j < n -> length (gen_cycle n i j) = n.
+Proof. intros H1 H2. unfold gen_cycle. rewrite !app_length, !seq_length. cbn [length]. lia. Qed.
+
+Lemma gen_cycle_nth n i j x : i <= j -> j < n -> x < n ->
+  nth x (gen_cycle n i j) 0 = if x <? i then x else if x <? j then x + 1 else if x =? j then i else x.
+Proof.
+  intros H1 H2 Hx. unfold gen_cycle.
+  destruct (Nat.ltb_spec x i).
+  { rewrite app_nth1 by (rewrite seq_length; lia). rewrite seq_nth by lia. reflexivity. }
+  rewrite app_nth2 by (rewrite seq_length; lia). rewrite seq_length.
+  destruct (Nat.ltb_spec x j).
+  { rewrite app_nth1 by (rewrite seq_length; lia). rewrite seq_nth by lia. lia. }
+  rewrite app_nth2 by (rewrite seq_length; lia). rewrite seq_length.
+  destruct (Nat.eqb_spec x j) as [->|Hne].
+  { replace (j - i - (j - i)) with 0 by lia. reflexivity. }
+  rewrite app_nth2 by (cbn [length]; lia). cbn [length].
+  rewrite seq_nth by lia. lia.
+Qed.
+
+Lemma nth_of_nats l t : nth t (of_nats l) 0%Z = Z.of_nat (nth t l 0).
+Proof. unfold of_nats. change 0%Z with (Z.of_nat 0). apply map_nth. Qed.
+
+Lemma zfrom_cycles_range n i j : i <= j -> j < n ->
+  zfrom_cycles (Z.of_nat n) [zrange (Z.of_nat i) (Z.of_nat j + 1)] = Ok (of_nats (gen_cycle n i j)).
+Proof.
+  intros H1 H2. unfold zfrom_cycles. rewrite Nat2Z.id.
+  replace (Z.of_nat j + 1)%Z with (Z.of_nat (j + 1)) by lia. rewrite zrange_nat.
+  set (c := of_nats (seq i (j + 1 - i))).
+  assert (length c = j + 1 - i) as Lc by (unfold c; rewrite of_nats_length; apply seq_length).
+  assert (forall z, In z c <-> exists a, z = Z.of_nat a /\ i <= a <= j) as Hin.
+  { intros z. unfold c, of_nats. rewrite in_map_iff. split.
+    - intros (a & <- & Ha). apply in_seq in Ha. exists a. split; [reflexivity|lia].
+    - intros (a & -> & Ha). exists a. split; [reflexivity|]. apply in_seq. lia. }
+  pose proof (from_cycles_spec n [c] 0) as Spec. cbv zeta in Spec.
+  assert (map (map (fun x => (x - 0)%Z)) [c] = [c]) as Ecs.
+  { cbn [map]. f_equal. rewrite <- (map_id c) at 2. apply map_ext. intros a. lia. }
+  rewrite Ecs in Spec.
+  destruct Spec as (perm & E & L & _ & S & U).
+  { split.
+    - cbn [concat]. rewrite app_nil_r. unfold c, of_nats. apply NoDup_map_inj; [apply seq_NoDup|].
+      intros x y _ _ Exy. lia.
+    - cbn [concat]. rewrite app_nil_r. apply Forall_forall. intros z Hz. apply Hin in Hz as (a & -> & Ha). lia. }
+  rewrite E. cbn [bind]. do 2 f_equal.
+  apply nth_ext' with (d := 0); [rewrite L; symmetry; apply gen_cycle_length; assumption|].
+  intros x Hx. rewrite L in Hx. rewrite gen_cycle_nth by assumption.
+  assert (forall t, t < j + 1 - i -> nth t c 0%Z = Z.of_nat (i + t)) as Hc.
+  { intros t Ht. unfold c. rewrite nth_of_nats, seq_nth by lia. reflexivity. }
+  destruct (Nat.ltb_spec x i) as [Hlt|Hge].
+  { apply U; [exact Hx|]. cbn [concat]. rewrite app_nil_r. intros Hz. apply Hin in Hz as (a & Ea & Ha). lia. }
+  destruct (Nat.ltb_spec x j) as [Hlt|Hge'].
+  { specialize (S c (x - i) (or_introl eq_refl) ltac:(lia)).
+    rewrite Lc in S. rewrite Nat.mod_small in S by lia. rewrite !Hc in S by lia. rewrite !Nat2Z.id in S.
+    replace (i + (x - i)) with x in S by lia. rewrite S. lia. }
+  destruct (Nat.eqb_spec x j) as [->|Hne].
+  { specialize (S c (j - i) (or_introl eq_refl) ltac:(lia)).
+    rewrite Lc in S. replace (j - i + 1) with (j + 1 - i) in S by lia. rewrite Nat.mod_same in S by lia.
+    rewrite !Hc in S by lia. rewrite !Nat2Z.id in S.
+    replace (i + (j - i)) with j in S by lia. rewrite S. lia. }
+  apply U; [exact Hx|]. cbn [concat]. rewrite app_nil_r. intros Hz. apply Hin in Hz as (a & Ea & Ha). lia.
+Qed.
+
+Theorem prefix_cycles_returns n : 2 <= n ->
+  returns (prefix_cycles (Z.of_nat n)) n (map (fun j => gen_cycle n 0 (j - 1)) (seq 2 (n - 1))).
+Proof.
+  intros Hn. unfold prefix_cycles. zguard.
+  replace (zrange 2 (Z.of_nat n + 1)) with (of_nats (seq 2 (n - 1))).
+  2:{ change 2%Z with (Z.of_nat 2). replace (Z.of_nat n + 1)%Z with (Z.of_nat (n + 1)) by lia.
+      rewrite zrange_nat. do 2 f_equal. lia. }
+  unfold of_nats at 1 2. rewrite !map_map.
+  rewrite (mapM_map_ok _ _ (fun j => of_nats (gen_cycle n 0 (j - 1)))).
+  2:{ intros j Hj. apply in_seq in Hj.
+      replace (Z.of_nat j) with (Z.of_nat (j - 1) + 1)%Z by lia. change 0%Z with (Z.of_nat 0).
+      apply zfrom_cycles_range; lia. }
+  cbn [bind]. rewrite <- map_map.
+  apply returns_create.
+  - destruct n as [|[|n']]; try lia. discriminate.
+  - lia.
+  - apply Forall_forall. intros p Hp. apply in_map_iff in Hp as (j & <- & Hj). apply in_seq in Hj.
+    apply gen_cycle_PermN; lia.
+  - intros l [= <-]. now rewrite !map_length.
+Qed.
+
+Lemma flat_map_pairs {I J B} (F : I -> J -> B) (R : I -> list J) (L : list I) :
+  flat_map (fun i => map (fun j => F i j) (R i)) L
+  = map (fun ij => F (fst ij) (snd ij)) (flat_map (fun i => map (fun j => (i, j)) (R i)) L).
+Proof.
+  induction L as [|a L IH]; [reflexivity|]. cbn [flat_map]. rewrite map_app, IH. f_equal.
+  rewrite map_map. reflexivity.
+Qed.
+
+Theorem down_cycles_returns n : 2 <= n ->
+  returns (down_cycles (Z.of_nat n)) n (map (fun ij => gen_cycle n (fst ij) (snd ij)) (pairs n)).
+Proof.
+  intros Hn. unfold down_cycles. zguard.
+  rewrite (flat_map_pairs (fun i j => zrange i (j + 1)) (fun i => zrange (i + 1) (Z.of_nat n))).
+  rewrite zpairs_nat, !map_map.
+  rewrite (mapM_map_ok _ _ (fun ij => of_nats (gen_cycle n (fst ij) (snd ij)))).
+  2:{ intros [i j] Hij. apply in_pairs in Hij. cbn [zpair fst snd]. apply zfrom_cycles_range; lia. }
+  cbn [bind]. rewrite <- map_map.
+  apply returns_create.
+  - assert (In (0, 1) (pairs n)) as Hij by (apply in_pairs; lia).
+    destruct (pairs n); [destruct Hij|discriminate].
+  - lia.
+  - apply Forall_forall. intros p Hp. apply in_map_iff in Hp as ([i j] & <- & Hij). apply in_pairs in Hij.
+    apply gen_cycle_PermN; cbn; lia.
+  - intros l [= <-]. now rewrite !map_length.
+Qed.
+
+Theorem consecutive_k_cycles_returns n k : 1 <= k <= n ->
+  returns (consecutive_k_cycles (Z.of_nat n) (Z.of_nat k)) n
+          (map (fun i => gen_cycle n i (i + k - 1)) (seq 0 (n - k + 1))).
+Proof.
+  intros Hk. unfold consecutive_k_cycles. zguard.
+  replace (Z.of_nat n - Z.of_nat k + 1)%Z with (Z.of_nat (n - k + 1)) by lia.
+  rewrite zrange0_nat. unfold of_nats at 1 2. rewrite !map_map.
+  rewrite (mapM_map_ok _ _ (fun i => of_nats (gen_cycle n i (i + k - 1)))).
+  2:{ intros i Hi. apply in_seq in Hi.
+      replace (Z.of_nat i + Z.of_nat k)%Z with (Z.of_nat (i + k - 1) + 1)%Z by lia.
+      apply zfrom_cycles_range; lia. }
+  cbn [bind]. rewrite <- map_map.
+  apply returns_create.
+  - replace (n - k + 1) with (S (n - k)) by lia. discriminate.
+  - lia.
+  - apply Forall_forall. intros p Hp. apply in_map_iff in Hp as (i & <- & Hi). apply in_seq in Hi.
+    apply gen_cycle_PermN; lia.
+  - intros l [= <-]. now rewrite !map_length.
+Qed.
+
+(* ---------------------------------------------------------------------------------------------- *)
+(** * The documented properties, family by family *)
+Lemma returns_map {I} r n (f : I -> list nat) (l : list I) : returns r n (map f l) ->
+  exists d, r = Ok d /\ p_gens d = map f l /\ length (p_gens d) = length l /\ length (p_names d) = length l /\
+    (forall t dI, t < length l -> nth t (p_gens d) [] = f (nth t l dI)) /\
+    (forall p, In p (p_gens d) <-> exists a, In a l /\ p = f a).
+Proof.
+  intros (d & E & G & _ & N). exists d. rewrite G. rewrite map_length in N. rewrite map_length.
+  repeat split; try assumption.
+  - intros t dI Ht. apply nth_map_lt. exact Ht.
+  - intros Hp. apply in_map_iff in Hp as (a & <- & Ha). exists a. split; [exact Ha|reflexivity].
+  - intros (a & Ha & ->). apply in_map. exact Ha.
+Qed.
+
+(* lrx: L, R, X = shift left, shift right, swap of the elements 0 and k *)
+Theorem lrx_documented n k : 3 <= n -> 1 <= k < n ->
+  exists d, lrx (Z.of_nat n) (Z.of_nat k) = Ok d /\ length (p_gens d) = 3 /\ Forall (PermN n) (p_gens d) /\
+    forall (A : Type) (dflt : A) (x : list A), length x = n ->
+      map (fun p => apply_perm dflt p x) (p_gens d) = [shift_left x; shift_right x; swap_at dflt x 0 k].
+Proof.
+  intros Hn Hk. destruct (lrx_returns n k Hn Hk) as (d & E & G & _ & _). exists d. rewrite G.
+  split; [exact E|]. split; [reflexivity|]. split.
+  - repeat (apply Forall_cons || apply Forall_nil); [apply gen_L_PermN|apply gen_R_PermN|apply transp_PermN]; lia.
+  - intros A dflt x L. cbn [map]. rewrite (apply_gen_L dflt n), (apply_gen_R dflt n), (apply_transp dflt n) by lia.
+    reflexivity.
+Qed.
+
+(* lx: L, X = left shift, swap of the first two elements; documented NOT inverse-closed *)
+Lemma gen_L_nth n t : t < n -> nth t (gen_L n) 0 = if t + 1 <? n then t + 1 else 0.
+Proof.
+  intros Ht. unfold gen_L. destruct (Nat.ltb_spec (t + 1) n).
+  - rewrite app_nth1 by (rewrite seq_length; lia). rewrite seq_nth by lia. lia.
+  - rewrite app_nth2 by (rewrite seq_length; lia). rewrite seq_length. replace (t - (n - 1)) with 0 by lia. reflexivity.
+Qed.
+
+Theorem lx_documented n : 3 <= n ->
+  exists d, lx (Z.of_nat n) = Ok d /\ length (p_gens d) = 2 /\ Forall (PermN n) (p_gens d) /\
+    (forall (A : Type) (dflt : A) (x : list A), length x = n ->
+      map (fun p => apply_perm dflt p x) (p_gens d) = [shift_left x; swap_at dflt x 0 1]) /\
+    is_some (perm_inverse_map (p_gens d)) = false.
+Proof.
+  intros Hn. destruct (lx_returns n Hn) as (d & E & G & _ & _). exists d. rewrite G.
+  split; [exact E|]. split; [reflexivity|]. split; [|split].
+  - repeat (apply Forall_cons || apply Forall_nil); [apply gen_L_PermN|apply transp_PermN]; lia.
+  - intros A dflt x L. cbn [map]. rewrite (apply_gen_L dflt n), (apply_transp dflt n) by lia. reflexivity.
+  - destruct (is_some (perm_inverse_map [gen_L n; transp n 0 1])) eqn:C; [|reflexivity]. exfalso.
+    apply closed_flag_iff with (p := gen_L n) in C; [|left; reflexivity].
+    destruct (gen_L_PermN n ltac:(lia)) as [PL LL].
+    pose proof (inverse_spec (gen_L n) 0 PL ltac:(lia)) as S0.
+    pose proof (inverse_spec (gen_L n) 1 PL ltac:(lia)) as S1.
+    rewrite gen_L_nth in S0, S1 by lia.
+    destruct (Nat.ltb_spec (0 + 1) n); [|lia]. destruct (Nat.ltb_spec (1 + 1) n); [|lia].
+    destruct C as [C|[C|[]]]; rewrite <- C in S0, S1.
+    + rewrite gen_L_nth in S0 by lia. destruct (Nat.ltb_spec (0 + 1 + 1) n); lia.
+    + rewrite transp_nth in S1 by lia. cbn in S1. lia.
+Qed.
+
+(* top_spin: shift left, shift right, reversal of the first k elements *)
+Theorem top_spin_documented n k : 2 <= k <= n ->
+  exists d, top_spin (Z.of_nat n) (Z.of_nat k) = Ok d /\ length (p_gens d) = 3 /\ Forall (PermN n) (p_gens d) /\
+    forall (A : Type) (dflt : A) (x : list A), length x = n ->
+      map (fun p => apply_perm dflt p x) (p_gens d) = [shift_left x; shift_right x; rev_prefix k x].
+Proof.
+  intros Hk. destruct (top_spin_returns n k Hk) as (d & E & G & _ & _). exists d. rewrite G.
+  split; [exact E|]. split; [reflexivity|]. split.
+  - repeat (apply Forall_cons || apply Forall_nil); [apply gen_L_PermN|apply gen_R_PermN|apply gen_rev_prefix_PermN]; lia.
+  - intros A dflt x L. cbn [map].
+    rewrite (apply_gen_L dflt n), (apply_gen_R dflt n), (apply_gen_rev_prefix dflt n) by lia. reflexivity.
+Qed.
+
+(* pancake: n-1 generators R1..R(n-1); Ri reverses the elements 0..i *)
+Theorem pancake_documented n : 2 <= n ->
+  exists d, pancake (Z.of_nat n) = Ok d /\ length (p_gens d) = n - 1 /\ length (p_names d) = n - 1 /\
+    Forall (PermN n) (p_gens d) /\
+    forall (A : Type) (dflt : A) (x : list A) i, length x = n -> 1 <= i <= n - 1 ->
+      apply_perm dflt (nth (i - 1) (p_gens d) []) x = rev_prefix (i + 1) x.
+Proof.
+  intros Hn. destruct (returns_map _ _ _ _ (pancake_returns n Hn)) as (d & E & G & L & N & Hnth & Hin).
+  rewrite seq_length in L, N. exists d. repeat split; try assumption.
+  - apply Forall_forall. intros p Hp. apply Hin in Hp as (k & Hk & ->). apply in_seq in Hk.
+    apply gen_rev_prefix_PermN. lia.
+  - intros A dflt x i Lx Hi. rewrite (Hnth (i - 1) 0) by (rewrite seq_length; lia).
+    rewrite seq_nth by lia. replace (2 + (i - 1)) with (i + 1) by lia.
+    apply apply_gen_rev_prefix; lia.
+Qed.
+
+(* coxeter: n-1 generators (0,1), (1,2), ..., (n-2,n-1) *)
+Theorem coxeter_documented n : 2 <= n ->
+  exists d, coxeter (Z.of_nat n) = Ok d /\ length (p_gens d) = n - 1 /\ length (p_names d) = n - 1 /\
+    Forall (PermN n) (p_gens d) /\
+    forall (A : Type) (dflt : A) (x : list A) i, length x = n -> i < n - 1 ->
+      apply_perm dflt (nth i (p_gens d) []) x = swap_at dflt x i (i + 1).
+Proof.
+  intros Hn. destruct (returns_map _ _ _ _ (coxeter_returns n Hn)) as (d & E & G & L & N & Hnth & Hin).
+  rewrite seq_length in L, N. exists d. repeat split; try assumption.
+  - apply Forall_forall. intros p Hp. apply Hin in Hp as (k & Hk & ->). apply in_seq in Hk.
+    apply transp_PermN; lia.
+  - intros A dflt x i Lx Hi. rewrite (Hnth i 0) by (rewrite seq_length; lia).
+    rewrite seq_nth by lia. cbn [Nat.add]. apply apply_transp; lia.
+Qed.
+
+(* cyclic_coxeter: n generators (0,1), ..., (n-2,n-1), (0,n-1) *)
+Theorem cyclic_coxeter_documented n : 2 <= n ->
+  exists d, cyclic_coxeter (Z.of_nat n) = Ok d /\ length (p_gens d) = n /\ length (p_names d) = n /\
+    Forall (PermN n) (p_gens d) /\
+    forall (A : Type) (dflt : A) (x : list A), length x = n ->
+      (forall i, i < n - 1 -> apply_perm dflt (nth i (p_gens d) []) x = swap_at dflt x i (i + 1)) /\
+      apply_perm dflt (nth (n - 1) (p_gens d) []) x = swap_at dflt x 0 (n - 1).
+Proof.
+  intros Hn. destruct (cyclic_coxeter_returns n Hn) as (d & E & G & _ & N). exists d. rewrite G.
+  rewrite app_length, map_length, seq_length in N. cbn [length] in N.
+  split; [exact E|]. split; [rewrite app_length, map_length, seq_length; cbn; lia|]. split; [lia|]. split.
+  - apply Forall_app. split.
+    + apply Forall_forall. intros p Hp. apply in_map_iff in Hp as (k & <- & Hk). apply in_seq in Hk.
+      apply transp_PermN; lia.
+    + repeat (apply Forall_cons || apply Forall_nil). apply transp_PermN; lia.
+  - intros A dflt x Lx. split.
+    + intros i Hi. rewrite app_nth1 by (rewrite map_length, seq_length; lia).
+      rewrite (nth_map_lt _ _ i 0) by (rewrite seq_length; lia). rewrite seq_nth by lia. cbn [Nat.add].
+      apply apply_transp; lia.
+    + rewrite app_nth2 by (rewrite map_length, seq_length; lia). rewrite map_length, seq_length, Nat.sub_diag.
+      cbn [nth]. apply apply_transp; lia.
+Qed.
+
+(* stars: the n-1 transpositions (0 i) *)
+Theorem stars_documented n : 3 <= n ->
+  exists d, stars (Z.of_nat n) = Ok d /\ length (p_gens d) = n - 1 /\ length (p_names d) = n - 1 /\
+    Forall (PermN n) (p_gens d) /\
+    forall (A : Type) (dflt : A) (x : list A) i, length x = n -> 1 <= i <= n - 1 ->
+      apply_perm dflt (nth (i - 1) (p_gens d) []) x = swap_at dflt x 0 i.
+Proof.
+  intros Hn. destruct (returns_map _ _ _ _ (stars_returns n Hn)) as (d & E & G & L & N & Hnth & Hin).
+  rewrite seq_length in L, N. exists d. repeat split; try assumption.
+  - apply Forall_forall. intros p Hp. apply Hin in Hp as (k & Hk & ->). apply in_seq in Hk.
+    apply transp_PermN; lia.
+  - intros A dflt x i Lx Hi. rewrite (Hnth (i - 1) 0) by (rewrite seq_length; lia).
+    rewrite seq_nth by lia. replace (1 + (i - 1)) with i by lia. apply apply_transp; lia.
+Qed.
+
+(* the three families indexed by pairs i < j < n *)
+Lemma pairs_family_documented r n (g : nat -> nat -> nat -> list nat) :
+  returns r n (map (fun ij => g n (fst ij) (snd ij)) (pairs n)) ->
+  (forall i j, i < j < n -> PermN n (g n i j)) ->
+  exists d, r = Ok d /\ 2 * length (p_gens d) = n * (n - 1) /\ length (p_names d) = length (p_gens d) /\
+    Forall (PermN n) (p_gens d) /\
+    (forall p, In p (p_gens d) <-> exists i j, i < j < n /\ p = g n i j).
+Proof.
+  intros R HP. destruct (returns_map _ _ _ _ R) as (d & E & G & L & N & _ & Hin).
+  exists d. split; [exact E|]. split; [rewrite L; apply pairs_length|]. split; [congruence|]. split.
+  - apply Forall_forall. intros p Hp. apply Hin in Hp as ([i j] & Hij & ->). apply in_pairs in Hij.
+    apply HP. exact Hij.
+  - intros p. rewrite Hin. split.
+    + intros ([i j] & Hij & ->). apply in_pairs in Hij. exists i, j. split; [exact Hij|reflexivity].
+    + intros (i & j & Hij & ->). exists (i, j). split; [apply in_pairs; exact Hij|reflexivity].
+Qed.
+
+(* all_transpositions: exactly the n(n-1)/2 transpositions; each swaps two entries *)
+Theorem all_transpositions_documented n : 2 <= n ->
+  exists d, all_transpositions (Z.of_nat n) = Ok d /\ 2 * length (p_gens d) = n * (n - 1) /\
+    length (p_names d) = length (p_gens d) /\ Forall (PermN n) (p_gens d) /\
+    (forall p, In p (p_gens d) <-> exists i j, i < j < n /\ p = transp n i j) /\
+    forall (A : Type) (dflt : A) (x : list A) i j, length x = n -> i < j < n ->
+      apply_perm dflt (transp n i j) x = swap_at dflt x i j.
+Proof.
+  intros Hn.
+  destruct (pairs_family_documented _ n transp (all_transpositions_returns n Hn)) as (d & H1 & H2 & H3 & H4 & H5).
+  { intros i j Hij. apply transp_PermN; lia. }
+  exists d. repeat split; try assumption; try apply H5.
+  intros A dflt x i j Lx Hij. apply apply_transp; lia.
+Qed.
+
+(* full_reversals: exactly the n(n-1)/2 reversals of a substring x[i..j] *)
+Theorem full_reversals_documented n : 2 <= n ->
+  exists d, full_reversals (Z.of_nat n) = Ok d /\ 2 * length (p_gens d) = n * (n - 1) /\
+    length (p_names d) = length (p_gens d) /\ Forall (PermN n) (p_gens d) /\
+    (forall p, In p (p_gens d) <-> exists i j, i < j < n /\ p = gen_rev_segment n i j) /\
+    forall (A : Type) (dflt : A) (x : list A) i j, length x = n -> i < j < n ->
+      apply_perm dflt (gen_rev_segment n i j) x = rev_segment i j x.
+Proof.
+  intros Hn.
+  destruct (pairs_family_documented _ n gen_rev_segment (full_reversals_returns n Hn)) as (d & H1 & H2 & H3 & H4 & H5).
+  { intros i j Hij. apply gen_rev_segment_PermN; lia. }
+  exists d. repeat split; try assumption; try apply H5.
+  intros A dflt x i j Lx Hij. apply apply_gen_rev_segment; lia.
+Qed.
+
+(* down_cycles: exactly the cycles (i, i+1, ..., j), i < j < n; each rotates the segment x[i..j] *)
+Theorem down_cycles_documented n : 2 <= n ->
+  exists d, down_cycles (Z.of_nat n) = Ok d /\ 2 * length (p_gens d) = n * (n - 1) /\
+    length (p_names d) = length (p_gens d) /\ Forall (PermN n) (p_gens d) /\
+    (forall p, In p (p_gens d) <-> exists i j, i < j < n /\ p = gen_cycle n i j) /\
+    forall (A : Type) (dflt : A) (x : list A) i j, length x = n -> i < j < n ->
+      apply_perm dflt (gen_cycle n i j) x = rot_segment i j x.
+Proof.
+  intros Hn.
+  destruct (pairs_family_documented _ n gen_cycle (down_cycles_returns n Hn)) as (d & H1 & H2 & H3 & H4 & H5).
+  { intros i j Hij. apply gen_cycle_PermN; lia. }
+  exists d. repeat split; try assumption; try apply H5.
+  intros A dflt x i j Lx Hij. apply apply_gen_cycle; lia.
+Qed.
+
+(* prefix_cycles: the n-1 cycles (0 1 ... j-1), j = 2..n *)
+Theorem prefix_cycles_documented n : 2 <= n ->
+  exists d, prefix_cycles (Z.of_nat n) = Ok d /\ length (p_gens d) = n - 1 /\ length (p_names d) = n - 1 /\
+    Forall (PermN n) (p_gens d) /\
+    forall (A : Type) (dflt : A) (x : list A) j, length x = n -> 2 <= j <= n ->
+      nth (j - 2) (p_gens d) [] = gen_cycle n 0 (j - 1) /\
+      apply_perm dflt (nth (j - 2) (p_gens d) []) x = rot_segment 0 (j - 1) x.
+Proof.
+  intros Hn. destruct (returns_map _ _ _ _ (prefix_cycles_returns n Hn)) as (d & E & G & L & N & Hnth & Hin).
+  rewrite seq_length in L, N. exists d. repeat split; try assumption.
+  - apply Forall_forall. intros p Hp. apply Hin in Hp as (k & Hk & ->). apply in_seq in Hk.
+    apply gen_cycle_PermN; lia.
+  - rewrite (Hnth (j - 2) 0) by (rewrite seq_length; lia). rewrite seq_nth by lia. do 2 f_equal. lia.
+  - rewrite (Hnth (j - 2) 0) by (rewrite seq_length; lia). rewrite seq_nth by lia.
+    replace (2 + (j - 2) - 1) with (j - 1) by lia. apply apply_gen_cycle; lia.
+Qed.
+
+(* consecutive_k_cycles: the n-k+1 cycles (i, i+1, ..., i+k-1), i = 0..n-k *)
+Theorem consecutive_k_cycles_documented n k : 1 <= k <= n ->
+  exists d, consecutive_k_cycles (Z.of_nat n) (Z.of_nat k) = Ok d /\
+    length (p_gens d) = n - k + 1 /\ length (p_names d) = n - k + 1 /\ Forall (PermN n) (p_gens d) /\
+    forall (A : Type) (dflt : A) (x : list A) i, length x = n -> i <= n - k ->
+      nth i (p_gens d) [] = gen_cycle n i (i + k - 1) /\
+      apply_perm dflt (nth i (p_gens d) []) x = rot_segment i (i + k - 1) x.
+Proof.
+  intros Hk. destruct (returns_map _ _ _ _ (consecutive_k_cycles_returns n k Hk)) as (d & E & G & L & N & Hnth & Hin).
+  rewrite seq_length in L, N. exists d. repeat split; try assumption.
+  - apply Forall_forall. intros p Hp. apply Hin in Hp as (i & Hi & ->). apply in_seq in Hi.
+    apply gen_cycle_PermN; lia.
+  - rewrite (Hnth i 0) by (rewrite seq_length; lia). rewrite seq_nth by lia. reflexivity.
+  - rewrite (Hnth i 0) by (rewrite seq_length; lia). rewrite seq_nth by lia. cbn [Nat.add].
+    apply apply_gen_cycle; lia.
+Qed.
+
+(* the closed forms, pointwise: what gen_cycle / gen_rev_segment / transp are as maps *)
+Theorem gen_cycle_is_the_cycle n i j x : i <= j -> j < n -> x < n ->
+  nth x (gen_cycle n i j) 0 = if x <? i then x else if x <? j then x + 1 else if x =? j then i else x.
+Proof. exact (gen_cycle_nth n i j x). Qed.
